@@ -68,6 +68,25 @@ def w_mandy(ctx, rng, idx):
         ctx.sample({'workload': 'mandy', 'state_dim': d, 'snapshots': m, 'functions': [n for (n, _) in sel], 'threshold': thr, 'duplicate_snapshot': dup})
 
 
+def w_kb_model(ctx, rng, idx):
+    """the use the kernel-based variant is made for: many basis functions (monomials of degree <= 4 or 5 per coordinate), fewer snapshots
+    than basis functions, NOISE-FREE right-hand sides generated from a model in the span of the basis.  The Gram matrix is poorly
+    conditioned (1e6..1e10) and the fitted values are nevertheless reproduced to many digits by a backward-stable solve"""
+    d = int(rng.integers(1, 3))
+    deg = int(rng.integers(3, 6))
+    import scikit_tt.data_driven.transform as tr_
+    bl = [[tr_.Monomial(i, k) for k in range(deg + 1)] for i in range(d)]
+    N = (deg + 1) ** d
+    m = int(rng.integers(max(2, N // 2), N + 1))
+    x = rng.uniform(-1.0, 1.0, size=(d, m))
+    with probe.oracle():
+        A = monitors_transform.product_tensor([np.array([[float(f(x[:, j])) for j in range(m)] for f in fl]) for fl in bl]).reshape(N, m)
+    xi = rng.standard_normal((int(rng.integers(1, 3)), N)) * (rng.random((1, N)) < 0.4)  # a sparse model, as in system identification
+    y = xi @ A
+    ctx.describe({'op': 'mandy_kb (noise-free model data)', 'd': d, 'm': m, 'degree': deg, 'functions': N, 'cond_Psi': float(np.linalg.cond(A))})
+    call('regression.mandy_kb', reg.mandy_kb, x, y, bl, prop=P, refusals=(np.linalg.LinAlgError,), tags=['noise_free_model_data'])
+
+
 def w_kb(ctx, rng, idx):
     d, m = int(rng.integers(1, 4)), int(rng.integers(1, 8))
     x = gen.data_matrix(rng, (d, m))
@@ -155,6 +174,7 @@ def w_arr(ctx, rng, idx):
 WORKLOADS = [
     Workload('mandy', w_mandy, 240, 5000),
     Workload('kernel', w_kb, 160, 3000),
+    Workload('kernel_model_data', w_kb_model, 60, 1500),
     Workload('arr', w_arr, 160, 3000),
 ]
 REQUIRED = ['C16|regression.mandy_cm:equals_y_times_pseudoinverse', 'C16|regression.mandy_fm:equals_y_times_pseudoinverse',
